@@ -27,11 +27,21 @@ def corrected(ctx, R, J, kernel):
     raise NotImplementedError
 
 
-def case_gn(H, kind, weighted, vectorize):
-    name = 'C07/GN/%s/weight=%s/vectorize=%s' % (kind, weighted, vectorize)
+HUBER_DELTA = 0.5
+
+
+def case_gn(H, kind, weighted, vectorize, kernels=None):
+    """kernels: None, or a list aligned with the model's residual outputs of None / 'Huber' (auto-selected FastTriggs correctors)"""
+    name = 'C07/GN/%s/weight=%s/vectorize=%s%s' % (kind, weighted, vectorize, '' if kernels is None else '/kernel=%s' % kernels)
+    mk_kernels = (lambda: None) if kernels is None else (lambda: [None if k_ is None else pp.optim.kernel.Huber(delta=HUBER_DELTA) for k_ in kernels])
 
     def prog(m):
         mod, params, p, y, ps, ys, info = make_model(kind, m)
+        if kernels is not None:
+            # configuration case: one regime of the algebra parameter (value coverage of the small-angle branches is in the other cases)
+            for (nm_, k_, g_, vs_, ten_) in params:
+                if nm_ == 'a':
+                    m.ctx.assume += [z3.Sum([v_ * v_ for v_ in vs_]) > z3.RealVal('1/100'), z3.Sum([v_ * v_ for v_ in vs_]) < 1]
         R, Rflat, J = oracle_residual_jacobian(m.ctx, m, mod, params, p, y)
         W = Wt = None
         if weighted:
@@ -43,7 +53,7 @@ def case_gn(H, kind, weighted, vectorize):
                 W = W[0].contiguous()
             Wt = m.symbolic(W, 'w')
         sol = RecSolver(m, rot_slices=info['rot_slices'])
-        opt = pp.optim.GN(mod, solver=sol, vectorize=vectorize)
+        opt = pp.optim.GN(mod, solver=sol, vectorize=vectorize, kernel=mk_kernels())
         before = {nm: list(vs) for nm, kind_, g, vs, ten in params}
         loss = opt.step(p, y, weight=W) if weighted else opt.step(p, y)
         after = {nm: m.full_terms(ten.data) for nm, kind_, g, vs, ten in params}
@@ -97,7 +107,7 @@ def case_gn(H, kind, weighted, vectorize):
             W = Lw @ Lw.mT
             if nw == 1:
                 W = W[0]
-        opt = pp.optim.GN(mod, solver=rec, vectorize=vectorize)
+        opt = pp.optim.GN(mod, solver=rec, vectorize=vectorize, kernel=mk_kernels())
         before = {nm: ten.data.clone() for nm, k_, g, vs, ten in params}
         try:
             opt.step(p, y, weight=W) if weighted else opt.step(p, y)
@@ -140,6 +150,22 @@ def case_gn(H, kind, weighted, vectorize):
                         cols.append(torch.zeros_like(cols[-1]))
             Jfd = torch.stack(cols, 1)
             R0 = resid()
+            if kernels is not None:
+                # documented correction (FastTriggs): every residual item (last dimension) and its Jacobian rows are scaled by
+                # sqrt(rho'(|r|^2)); Huber: rho' = 1 below delta^2 and delta/|r| above; no kernel: untouched
+                out_ = mod(p)
+                outs_ = out_ if isinstance(out_, (tuple, list)) else (out_,)
+                scale, off = torch.ones_like(R0), 0
+                for i_, o_ in enumerate(outs_):
+                    o_ = o_.tensor() if isinstance(o_, pp.LieTensor) else o_
+                    o_ = (o_ - y) if (y is not None and i_ == 0) else o_
+                    rows = o_.reshape(-1, o_.shape[-1])
+                    if kernels[i_] is not None:
+                        nr_ = rows.norm(dim=-1)
+                        sc = torch.where(nr_ < HUBER_DELTA, torch.ones_like(nr_), (HUBER_DELTA / nr_).sqrt())
+                        scale[off:off + rows.numel()] = sc.repeat_interleave(rows.shape[-1])
+                    off += rows.numel()
+                R0, Jfd = scale * R0, scale.view(-1, 1) * Jfd
             if weighted:
                 nblk = R0.numel() // 3
                 # documented broadcasting: weight (N,3,3) against residual (B,N,3): item (b,n) uses block n
@@ -161,7 +187,7 @@ def case_gn(H, kind, weighted, vectorize):
         else:
             H.engine_error(name, e)
 
-    for ctx, (calls, Rflat, J, Wt, after, exp_after, loss, loss_re, params, R) in run_paths(H, name, prog, max_paths=8, raised=on_raise):
+    for ctx, (calls, Rflat, J, Wt, after, exp_after, loss, loss_re, params, R) in run_paths(H, name, prog, max_paths=(8 if kernels is None else 16), raised=on_raise):
         pn = H.paths
         hyp = H.hyps_of(ctx)
         rels = [unit_rel(g, vs) for nm, k_, g, vs, ten in params if k_ == 'group']
@@ -181,6 +207,22 @@ def case_gn(H, kind, weighted, vectorize):
             WR = [z3.Sum([blk(i)[i % d][l] * Rflat[(i // d) * d + l] for l in range(d)]) for i in range(nr)]
         else:
             WJ, WR = J, Rflat
+        if kernels is not None:
+            off = 0
+            WJ, WR = [list(r_) for r_ in WJ], list(WR)
+            for i_, Rk in enumerate(R):
+                width = 2 if kind == 'euclid+two-outputs' else (3 if i_ == 0 else len(Rk))      # residual item = last dimension of the output
+                for st in range(0, len(Rk), width):
+                    if kernels[i_] is not None:
+                        x_ = z3.Sum([Rk[st + c_] * Rk[st + c_] for c_ in range(width)])
+                        rt = ctx.tfun('sqrt', x_)
+                        rho1 = z3.If(rt < rat(HUBER_DELTA), z3.RealVal(1), rat(HUBER_DELTA) / rt)
+                        sc = z3.If(rt < rat(HUBER_DELTA), z3.RealVal(1), ctx.tfun('sqrt', rat(HUBER_DELTA) / rt))
+                        for c_ in range(width):
+                            WR[off + st + c_] = sc * WR[off + st + c_]
+                            WJ[off + st + c_] = [sc * v_ for v_ in WJ[off + st + c_]]
+                off += len(Rk)
+            hyp = H.hyps_of(ctx)
         from .jac import small_regime
         small = small_regime(ctx)
         tol = z3.RealVal('1/' + '1' + '0' * 20)
@@ -325,7 +367,7 @@ def run(H):
     H.assumptions += ['exact real arithmetic', 'valid group parameters', 'steps returned by the (arbitrary) solver keep the retraction on its closed-form branch '
                       '(|rotation part of D| > 1e-3); tiny steps are C01/C05', 'default solvers meet their contract: C10']
     H.bounds += ['model programs: SO3 Act (2 points), SE3 + Euclidean + frozen parameter (1 point; frozen parameter registered last and first), so3 algebra parameter with two residual outputs',
-                 'weights: one SPD 3x3 block shared by all items (GN)', 'LM: Constant strategy, damping in {1e-6, 0.5}, and Adaptive strategy (damping 0.25), clamps active and inactive, reject=1',
+                 'weights: one SPD 3x3 block shared by all items (GN)', 'kernels: a list [None, Huber] on a Euclidean two-output model with the automatically selected correctors', 'LM: Constant strategy, damping in {1e-6, 0.5}, and Adaptive strategy (damping 0.25), clamps active and inactive, reject=1',
                  'the sparse backend (bae) is not installed: sparse=True is outside']
     only = getattr(H, 'only', None)
     jobs = []
@@ -334,6 +376,7 @@ def run(H):
     jobs.append(lambda: case_gn(H, 'SO3-act', True, True))
     jobs.append(lambda: case_gn(H, 'SO3-act-batched', True, True))
     jobs.append(lambda: case_gn(H, 'SO3-act', False, False))
+    jobs.append(lambda: case_gn(H, 'euclid+two-outputs', False, True, kernels=[None, 'Huber']))
     jobs.append(lambda: case_lm(H, 'SO3-act', 0.5, (1e-6, 1e32)))
     jobs.append(lambda: case_lm(H, 'SO3-act', 1e-6, (0.5, 2.0)))
     jobs.append(lambda: case_lm(H, 'SO3-act', 0.25, (0.5, 2.0), strategy='Adaptive'))
